@@ -127,6 +127,21 @@ CHECKS['C04'] = dict(
          'after a process boundary) and the trace is validated by TLC.',
     design_ref='DESIGN.md section 6 C04', note=SRV.replace('a ThreadServlet of harness workers (the abstract pipeline of the spec)', 'thread servlet trees of harness workers'))
 
+CHECKS['C11'] = dict(
+    technique='TLA+ spec ServerLifecycle (start handshake with failing worker, bounded pipes, onboarding and gather threads, '
+              'sentinel protocol, re-entry) checked by TLC for all-or-nothing start, complete stop, deadlock-freedom and '
+              'termination; as-found variants must leak / deadlock in the model; observations of real Server(ProcessServlet) '
+              'runs (real processes and pipes, sizes scaled around the pipe buffer) validated by TLC',
+    text='TLC explores every interleaving of starter, workers, onboarding thread, gather thread and the exit sequence for 1-3 '
+         'workers, pipe capacities 1-2 units, result sizes below / above the pipe, 0..P+2 abandoned inputs and two enter/exit '
+         'cycles.  The repaired design satisfies AllOrNothing, ExitComplete, no deadlock and Completes; each as-found flag is '
+         'refuted.  Real servers over process servlets are entered, used (ok / failing / timed-out call, abandoned stream) and '
+         'left twice with a failing worker at every position; leftovers (processes, threads) and exit are observed, validated by '
+         'TLC against the spec of the code as it is; an exit hang is a 30 s bound confirmed in a fresh process.  One open '
+         'finding (D11b) is reported as KNOWN-FINDING.',
+    design_ref='DESIGN.md section 6 C11', note='TLC; real OS schedules (not controlled); 64 KiB pipe assumed when scaling sizes; '
+    'thread-only servlet trees are covered for start/stop by the C02/C04/C06 conformance runs (every run ends with Exit, leftover = 0)')
+
 ALL = ['C%02d' % i for i in range(1, 21)]
 
 
